@@ -23,6 +23,7 @@ RULE = (
     "skipped nodes (BFS); every recorded (destination, steps) is a walk of the graph from the default session ending with an edge into "
     "destination; no DiagnosticSessionControl request for a skipped session reaches the ECU; the scan terminates within a request budget. A third of the cases give the scanner a database that already holds the transitions of an earlier, deeper scan; "
     "some skip lists contain the default session (never probed, still the start of every walk). "
+    "Some graph ECUs refuse every transition once with busyRepeatRequest (scan with one retry); some cases put latency on the wire so that the tester-present worker fires, also in sessions without TesterPresent. "
     "Non-trivial: the graph has a cycle or a session at distance >= 2 and the expected set differs between depth and depth-1. Distinct by case."
 )
 ASSUMPTIONS = [
